@@ -249,6 +249,12 @@ func (torrent *Torrent) MetadataComplete() error {
 		}
 	}
 
+	npieces := (length + int64(info.PieceLength) - 1) /
+		int64(info.PieceLength)
+	if npieces != int64(len(hashes)) {
+		return errors.New("pieces doesn't match the torrent's length")
+	}
+
 	chunks := (length + int64(config.ChunkSize) - 1) /
 		int64(config.ChunkSize)
 	if chunks != int64(uint32(chunks)) || chunks != int64(int(chunks)) {
